@@ -46,6 +46,7 @@ VERIF_FAIL = [
     "recommendation not met", "assertion failed in auto proof", "cannot show invariant holds",
     "failed this postcondition", "unwrap", "call to non-static", "invariant not satisfied before loop",
     "invariant not satisfied at end of loop body", "loop ensures not satisfied", "possible",
+    "unable to prove post-condition of closure", "unable to prove pre-condition of closure",
 ]
 TOOL_LIMIT = ["rlimit", "Resource limit", "timed out", "solver", "panicked", "internal error"]
 
